@@ -188,14 +188,22 @@ class SymMatch(object):
     def start(self, g=0):
         return 0
 
-    def group(self, *a):
+    cut = False
+
+    def _groups(self):
+        if self.cut:
+            # the subject matches the pattern: that case is the pattern_literal obligation's (C10 case split)
+            raise S.PathAbort("text matching the pattern is covered by the pattern_literal obligation")
         raise Unsupported("groups of a symbolic match")
+
+    def group(self, *a):
+        self._groups()
 
     def groupdict(self, *a):
-        raise Unsupported("groups of a symbolic match")
+        self._groups()
 
     def groups(self, *a):
-        raise Unsupported("groups of a symbolic match")
+        self._groups()
 
 
 def _subject(pat, s):
@@ -215,8 +223,26 @@ def m_fullmatch(interp, pat, s, *a):
         from .tokmatch import m_match_tokens
         return m_match_tokens(interp, pat, s, full=True)
     s = _subject(pat, s)
+    try:
+        translate(pat)
+    except Unsupported as e:
+        if getattr(interp, 'symmatch_cut', False):
+            return _fork_match(interp, pat, s, str(e))
+        raise
     if interp.ctx.branch(z3.InRe(s.t, language(pat))):
-        return SymMatch(s, SInt(z3.Length(s.t)))
+        m = SymMatch(s, SInt(z3.Length(s.t)))
+        m.cut = getattr(interp, 'symmatch_cut', False)
+        return m
+    return None
+
+
+def _fork_match(interp, pat, s, why):
+    """No usable translation of the pattern: the match simply may or may not succeed (sound over-approximation)."""
+    interp.ctx.note_overapprox("regex %r not translated (%s): match outcome forked" % (pat.pattern[:40], why))
+    if interp.ctx.choose(2, 'regex_matches'):
+        m = SymMatch(s, interp.ctx.int('match_end', declare=False))
+        m.cut = getattr(interp, 'symmatch_cut', False)
+        return m
     return None
 
 
@@ -228,7 +254,12 @@ def m_match(interp, pat, s, *a):
         from .tokmatch import m_match_tokens
         return m_match_tokens(interp, pat, s, full=False)
     s = _subject(pat, s)
-    t = translate(pat)
+    try:
+        t = translate(pat)
+    except Unsupported as e:
+        if getattr(interp, 'symmatch_cut', False):
+            return _fork_match(interp, pat, s, str(e))
+        raise
     ctx = interp.ctx
     if t.end_anchor:
         # anchored at the end: a prefix match is a whole-string match (up to a final newline for '$')
@@ -245,7 +276,9 @@ def m_match(interp, pat, s, *a):
         ctx.note_overapprox("re.match: which admissible end the engine picks is not modelled")
         e = ctx.int('match_end', declare=False)
         ctx.assume(z3.And(e.t >= 0, e.t <= z3.Length(s.t), z3.InRe(z3.SubString(s.t, 0, e.t), t.re)))
-        return SymMatch(s, e)
+        m = SymMatch(s, e)
+        m.cut = getattr(interp, 'symmatch_cut', False)
+        return m
     return None
 
 
